@@ -127,6 +127,10 @@ def make_data(rng, n, cont, labels="auto"):
         return np.column_stack([f, np.array(lab, dtype=float)]), cls, 2, (0, 1)
     df = pd.DataFrame({"x": f[:, 0], "z": f[:, 1], "label": lab})
     if labels == "auto" and rng.random() < 0.3:
+        # row labels other than 0..n-1: shuffled, with duplicates, or strings (injectors work by position)
+        r_ = rng.random()
+        df.index = rng.permutation(n) if r_ < 0.4 else (rng.integers(0, max(2, n // 2), size=n) if r_ < 0.7 else ["r%d" % i for i in rng.permutation(n)])
+    if labels == "auto" and rng.random() < 0.3:
         # mixed dtypes among the features: an integer column next to a float one (values, not dtypes, are what must be exchanged)
         df["z"] = rng.integers(-5, 6, size=n).astype("int64")
     return df, cls, "label", ("x", "z")
